@@ -93,6 +93,9 @@ def truth_term(v):
     if isinstance(v, Opaque):
         if v.truthy is True or v.truthy is False:
             return v.truthy
+        if v.props.get("any_constant"):
+            # the value of a source Constant node: any Python constant, truthy or falsy
+            return z3.Bool(f"{tagstr(v.tag)}.truthy")
         raise Unsupported(f"truth value of opaque {v!r}")
     if is_symstr(v):
         r = t_truth(v)
@@ -476,7 +479,7 @@ def opaque_ast_field(o: Opaque, name):
         elif tname == "int":
             mk = lambda t: SInt(z3.Int(tagstr(t)))
         elif tname == "constant":
-            mk = lambda t: Opaque(t, object, truthy=None)
+            mk = lambda t: Opaque(t, object, truthy=None, any_constant=True)
         elif tname == "expr_context":
             mk = lambda t: Opaque(t, ast.expr_context)
         else:
